@@ -27,8 +27,12 @@ fn fixed_program(layers: u8, nrecip: usize) -> Program {
 }
 
 /// one archive: (symmetric key, archive nonce, ephemeral public key, wrapped keys)
-fn secrets_of_one(p: &Program, k: &model::consts::K) -> Result<(String, String, String, Vec<String>), String> {
-    let b = drv::build(p, k, Sched::All)?;
+fn secrets_of_one(p: &Program, k: &model::consts::K, route: u8) -> Result<(String, String, String, Vec<String>), String> {
+    // identical inputs, the configuration being built through one of the equivalent routes
+    drv::CONFIG_PATH.with(|c| c.set(Some(route)));
+    let b = drv::build(p, k, Sched::All);
+    drv::CONFIG_PATH.with(|c| c.set(None));
+    let b = b?;
     let h = fmt::dec_header(&b.raw)?;
     let e = h.enc.ok_or("no encryption header")?;
     Ok((
@@ -46,8 +50,8 @@ pub fn child(args: &[String]) {
     let nrecip: usize = args.iter().position(|a| a == "--nrecip").and_then(|i| args.get(i + 1)).and_then(|s| s.parse().ok()).unwrap_or(1);
     let k = drv::compiled_k();
     let p = fixed_program(layers, nrecip);
-    for _ in 0..count {
-        match secrets_of_one(&p, &k) {
+    for i in 0..count {
+        match secrets_of_one(&p, &k, (i % drv::CONFIG_PATHS as usize) as u8) {
             Ok((key, nonce, eph, wrapped)) => println!("{}", json!({"key": key, "nonce": nonce, "eph": eph, "wrapped": wrapped})),
             Err(e) => println!("{}", json!({"error": e})),
         }
@@ -65,7 +69,12 @@ pub fn cases(ctx: &Ctx) -> Vec<Case> {
                 v.push(Case::Fresh { n, procs, per_proc: per, layers, nrecip });
             }
         }
-        for nrecip in 1..=6 {
+        let mut sets: Vec<usize> = (1..=6).collect();
+        sets.extend([16, 84, 85, 86, 128]);
+        if !ctx.quick() {
+            sets.extend([300, 1000]);
+        }
+        for nrecip in sets {
             for layers in [1u8, 3] {
                 v.push(Case::Keys { nrecip, layers, seed: rng.next() });
             }
@@ -160,8 +169,9 @@ pub fn run_case(ctx: &mut Ctx, c: &Case) {
                 ephs.push(eph);
                 wrapped_all.extend(wrapped);
             };
-            for _ in 0..*n {
-                match guarded(|| secrets_of_one(&p, &k)) {
+            for i in 0..*n {
+                ctx.count(&format!("config_route:{}", i % drv::CONFIG_PATHS as usize));
+                match guarded(|| secrets_of_one(&p, &k, (i % drv::CONFIG_PATHS as usize) as u8)) {
                     Ok(Ok((a, b, c2, d))) => add(a, b, c2, d),
                     Ok(Err(e)) => {
                         ctx.violation("C01", "c07-build-failed", scen(), json!({"error": e}));
@@ -293,8 +303,13 @@ pub fn run_case(ctx: &mut Ctx, c: &Case) {
                 })
             };
             // right key at every position among wrong keys
-            for r in 0..*nrecip {
-                for pos in 0..=3usize {
+            // (large sets: a sample of the recipients, the ends included)
+            let mut who: Vec<usize> = if *nrecip <= 8 { (0..*nrecip).collect() } else { vec![0, 1, *nrecip / 2, 83, 84, 85, *nrecip - 2, *nrecip - 1] };
+            who.retain(|r| r < nrecip);
+            who.dedup();
+            ctx.count(&format!("recipients:{}", match *nrecip { 1 => "1", 2..=6 => "2-6", 7..=84 => "7-84", _ => "85+" }));
+            for r in who {
+                for pos in (0..=3usize).filter(|pos| *nrecip <= 8 || *pos == 0 || *pos == 3) {
                     let mut list: Vec<[u8; 32]> = wrong[..3].to_vec();
                     list.insert(pos, b.sks[r]);
                     ctx.count(&format!("keylist:recipient_at_position_{pos}"));
